@@ -34,6 +34,7 @@ void   vf_arm(int kind, long k, int persistent); /* refuse the k-th (0-based, co
 void   vf_disarm(void);
 long   vf_faults_hit(void);
 void   vf_set_event_fn(vf_event_fn fn);
+void   vf_set_commit_min_len(size_t len);  /* exclude small mprotect(RW) calls (guard-page unprotects) from fault injection */
 
 /* mapping table (only mappings created through vf_mmap, i.e. by mimalloc) */
 size_t vf_region_count(void);
